@@ -82,3 +82,72 @@ func VerifC10_Deadline() { verifC10(1) }
 //
 //verif:harness property=C10 theory=bv tier=quick timers=off unwind=3 unwind_thorough=5 unwindcut=1 clock=frozen
 func VerifC10_Queue() { verifC10(2) }
+
+// verifQueueWaiters: limit 1 held since setup; n waiters arrive one after the other (each one only
+// once the previous one is parked: verif.SpawnAfter), then the holder completes (only once every
+// waiter is parked, so the arrival/release races of the single-waiter harnesses - known findings -
+// are excluded by construction).  Waiter 0's context is cancelled by the environment at any moment
+// or never (cancelFirst); timers are disabled in the environment.  At quiescence:
+//   - no waiter is blocked while capacity is free (C10),
+//   - the waiter that was served is the next in line among those that had not given up (C11),
+//   - the backlog length equals the number of blocked waiters (C12), the busy count the tokens owned (C02).
+func verifQueueWaiters(n int, ordering QueueOrdering, evictDone bool, cancelFirst bool) {
+	inner, st := verifFullLimiter()
+	lim := NewQueueBlockingLimiterFromConfig(inner, QueueLimiterConfig{Ordering: ordering, MaxBacklogSize: 10, MaxBacklogTimeout: time.Hour, BacklogEvictDoneCtx: evictDone})
+	held, ok := lim.Acquire(context.Background())
+	verif.Assert("setup-holds-the-only-token", ok && st.GetBusyCount() == 1)
+	outcome := verif.Choice("outcome", 3)
+	names := []string{"w0", "w1", "w2"}[:n]
+	var wOK, wDone [3]bool
+	for i := 0; i < n; i++ {
+		i := i
+		ctx := context.Background()
+		if i == 0 && cancelFirst {
+			ctx = verif.CancelCtxEvent("w0")
+		}
+		verif.SpawnAfter(names[i], func() {
+			l, ok := lim.Acquire(ctx)
+			wOK[i], wDone[i] = ok && l != nil, true
+		}, names[:i]...)
+	}
+	verif.SpawnAfter("r", func() { verifComplete(held, outcome) }, names...)
+	verif.Parallel()
+	busy := st.GetBusyCount()
+	nBlocked, nServed := 0, 0
+	var blocked, served [3]bool
+	for i := 0; i < n; i++ {
+		blocked[i] = verif.Blocked(names[i])
+		served[i] = verif.And(wDone[i], wOK[i])
+		nBlocked += verif.B2I(blocked[i])
+		nServed += verif.B2I(served[i])
+	}
+	lost := verif.And(nBlocked > 0, busy < 1)
+	verif.Class("waiter_blocked_with_capacity_free", lost)
+	verif.Assert("no-lost-handoff", verif.Not(lost))
+	verif.Assert("busy-is-tokens-owned", busy == nServed)
+	verif.Assert("backlog-is-blocked-callers", int(lim.backlog.len()) == nBlocked)
+	// order: a served waiter has no still-blocked waiter ahead of it
+	inOrder := true
+	for i := 0; i < n; i++ {
+		for j := 0; j < n; j++ {
+			ahead := j < i // FIFO: the older one is ahead
+			if ordering == OrderingLIFO {
+				ahead = j > i
+			}
+			if ahead {
+				inOrder = verif.And(inOrder, verif.Not(verif.And(served[i], blocked[j])))
+			}
+		}
+	}
+	verif.Assert("served-in-configured-order", inOrder)
+	verif.Reach("end")
+}
+
+// VerifC10_Queue_TwoParked: two parked waiters (FIFO and LIFO), the first one's context cancelled at
+// any moment (cancelled contexts do not leave the backlog by default): the release serves one.
+//
+//verif:harness property=C10 theory=bv tier=quick timers=off unwind=3 unwindcut=1 clock=frozen
+func VerifC10_Queue_TwoParked() {
+	ord := []QueueOrdering{OrderingFIFO, OrderingLIFO}[verif.Choice("ordering", 2)]
+	verifQueueWaiters(2, ord, false, true)
+}
